@@ -1,17 +1,8 @@
 #!/bin/sh
-# Offline setup: the Verus units need nothing built (Python + the installed verus). The Kani harness crate is compiled once so
-# that the C18 check does not pay for building chrono on its first run.
+# Offline setup: nothing needs building (Python + the installed verus / kani); check the tools and the unit files.
 cd "$(dirname "$0")" || exit 1
 mkdir -p build evidence replays
 command -v verus >/dev/null || { echo "verus not on PATH"; exit 1; }
+command -v cargo-kani >/dev/null 2>&1 || command -v kani >/dev/null 2>&1 || echo "warning: kani not found (C18 kernel check will be UNDECIDED)"
 python3 vf/main.py lint || exit 1
-if command -v cargo-kani >/dev/null 2>&1 || command -v kani >/dev/null 2>&1; then
-  python3 - <<'PY'
-import sys
-sys.path.insert(0, '.')
-from vf import kani
-r = kani.run({'harness': 'utc_timestamp_opt_never_panics'}, 'C18')
-print('kani warm-up:', 'ok' if r.get('discharged') else r.get('undecided') or r.get('violations'))
-PY
-fi
 exit 0
